@@ -3,7 +3,7 @@ import UncModel.Backup
 namespace Unc
 
 /-- a complete `--replace` run of the FIXED code, in closed form -/
-theorem run_fixed (F : Nat → Bytes → Bytes) (h : Bytes → Bytes) (cfg : Nat) (s : FS) (c : Bytes)
+theorem run_fixed (F : Nat → FBytes → FBytes) (h : FBytes → FBytes) (cfg : Nat) (s : FS) (c : FBytes)
     (hc : s.target = some c) :
     (exec (runProg Fix.fixed F h cfg) s []).fs =
       { target := some (F cfg c), tmp := none,
@@ -20,7 +20,7 @@ theorem run_fixed (F : Nat → Bytes → Bytes) (h : Bytes → Bytes) (cfg : Nat
       Result.push, Result.fs, FS.get, FS.set, step, hc, hm, hmm, hoo]
 
 /-- a complete `--replace` run of the code BEFORE the fs-1 patch: the md5 is taken of the original -/
-theorem run_md5_before (ck : Bool) (F : Nat → Bytes → Bytes) (h : Bytes → Bytes) (cfg : Nat) (s : FS) (c : Bytes)
+theorem run_md5_before (ck : Bool) (F : Nat → FBytes → FBytes) (h : FBytes → FBytes) (cfg : Nat) (s : FS) (c : FBytes)
     (hc : s.target = some c) :
     (exec (runProg ⟨false, ck⟩ F h cfg) s []).fs =
       { target := some (F cfg c), tmp := none,
@@ -36,13 +36,13 @@ theorem run_md5_before (ck : Bool) (F : Nat → Bytes → Bytes) (h : Bytes → 
     simp [runProg, doSourceFile, restPart, backupPart, fmtPart, finishPart, md5Part, FsMode.backup, exec, execFrom,
       Result.push, Result.fs, FS.get, FS.set, step, hc, hm, hmm, hoo]
 
-theorem injOn_tail {h : Bytes → Bytes} {F : Nat → Bytes → Bytes} {sp : Spec} {op : HistOp} {ops : List HistOp}
+theorem injOn_tail {h : FBytes → FBytes} {F : Nat → FBytes → FBytes} {sp : Spec} {op : HistOp} {ops : List HistOp}
     (hi : InjOn h (occurring F sp (op :: ops))) : InjOn h (occurring F (sp.step F op) ops) := by
   intro a b ha hb hab
   apply hi a b _ _ hab <;> simp [occurring] <;> simp [ha, hb]
 
 /-- one step preserves the invariant (fixed code) -/
-theorem inv_step (F : Nat → Bytes → Bytes) (h : Bytes → Bytes) (s : FS) (sp : Spec) (op : HistOp)
+theorem inv_step (F : Nat → FBytes → FBytes) (h : FBytes → FBytes) (s : FS) (sp : Spec) (op : HistOp)
     (hinv : BackupInv h s sp) (hi : InjOn h (sp.file :: sp.lastOut.toList)) :
     BackupInv h (applyOp Fix.fixed F h s op) (sp.step F op) := by
   obtain ⟨ht, hb, hm⟩ := hinv
@@ -63,7 +63,7 @@ theorem inv_step (F : Nat → Bytes → Bytes) (h : Bytes → Bytes) (s : FS) (s
 
 /-- a run killed before the backup is touched, before the rename and before the md5 file is
     touched leaves file, backup and md5 file alone -/
-theorem crash_before_backup (F : Nat → Bytes → Bytes) (h : Bytes → Bytes) (cfg : Nat) (s : FS) (c : Bytes)
+theorem crash_before_backup (F : Nat → FBytes → FBytes) (h : FBytes → FBytes) (cfg : Nat) (s : FS) (c : FBytes)
     (hc : s.target = some c) :
     ∀ o, CrashAt s [] (runProg Fix.fixed F h cfg) o → early o.2 → Sys.creat .bak ∉ o.2 →
       o.1.target = some c ∧ o.1.md5 = s.md5 ∧ o.1.bak = s.bak := by
@@ -79,7 +79,7 @@ theorem crash_before_backup (F : Nat → Bytes → Bytes) (h : Bytes → Bytes) 
 
 /-- a run killed after the backup was written and before the rename: the backup holds the file's
     content (and the md5 did not match), file and md5 file are untouched -/
-theorem crash_after_backup (F : Nat → Bytes → Bytes) (h : Bytes → Bytes) (cfg : Nat) (s : FS) (c : Bytes)
+theorem crash_after_backup (F : Nat → FBytes → FBytes) (h : FBytes → FBytes) (cfg : Nat) (s : FS) (c : FBytes)
     (hc : s.target = some c) :
     ∀ o, CrashAt s [] (runProg Fix.fixed F h cfg) o → early o.2 → (∃ bs, Sys.write .bak bs ∈ o.2) →
       o.1.target = some c ∧ o.1.md5 = s.md5 ∧ o.1.bak = some c ∧ s.md5 ≠ some (h c) := by
@@ -93,12 +93,12 @@ theorem crash_after_backup (F : Nat → Bytes → Bytes) (h : Bytes → Bytes) (
     simp [runProg, doSourceFile, restPart, backupPart, fmtPart, finishPart, md5Part, Fix.fixed, FsMode.backup, CrashAt,
       torn, early, FS.get, FS.set, step, hc, hm, hmm, hoo, or_imp, forall_and]
 
-theorem kinjOn_tail {h : Bytes → Bytes} {F : Nat → Bytes → Bytes} {sp : Spec} {op : KOp} {ops : List KOp}
+theorem kinjOn_tail {h : FBytes → FBytes} {F : Nat → FBytes → FBytes} {sp : Spec} {op : KOp} {ops : List KOp}
     (hi : InjOn h (koccurring F sp (op :: ops))) : InjOn h (koccurring F (sp.kstep F op) ops) := by
   intro a b ha hb hab
   apply hi a b _ _ hab <;> simp [koccurring] <;> simp [ha, hb]
 
-theorem kinjOn_head {h : Bytes → Bytes} {F : Nat → Bytes → Bytes} {sp : Spec} {ops : List KOp}
+theorem kinjOn_head {h : FBytes → FBytes} {F : Nat → FBytes → FBytes} {sp : Spec} {ops : List KOp}
     (hi : InjOn h (koccurring F sp ops)) : InjOn h (sp.file :: sp.lastOut.toList) := by
   intro a b ha hb hab
   cases ops with
@@ -108,7 +108,7 @@ theorem kinjOn_head {h : Bytes → Bytes} {F : Nat → Bytes → Bytes} {sp : Sp
     · simp only [List.mem_cons] at ha; rcases ha with ha | ha <;> simp [ha]
     · simp only [List.mem_cons] at hb; rcases hb with hb | hb <;> simp [hb]
 
-theorem injOn_head {h : Bytes → Bytes} {F : Nat → Bytes → Bytes} {sp : Spec} {ops : List HistOp}
+theorem injOn_head {h : FBytes → FBytes} {F : Nat → FBytes → FBytes} {sp : Spec} {ops : List HistOp}
     (hi : InjOn h (occurring F sp ops)) : InjOn h (sp.file :: sp.lastOut.toList) := by
   intro a b ha hb hab
   cases ops with
@@ -119,7 +119,7 @@ theorem injOn_head {h : Bytes → Bytes} {F : Nat → Bytes → Bytes} {sp : Spe
     · simp only [List.mem_cons] at hb; rcases hb with hb | hb <;> simp [hb]
 
 /-- one step of a history with kills outside the windows preserves the invariant -/
-theorem kinv_step (F : Nat → Bytes → Bytes) (h : Bytes → Bytes) (s s' : FS) (sp : Spec) (op : KOp)
+theorem kinv_step (F : Nat → FBytes → FBytes) (h : FBytes → FBytes) (s s' : FS) (sp : Spec) (op : KOp)
     (hinv : BackupInv h s sp) (hi : InjOn h (sp.file :: sp.lastOut.toList))
     (hs : KStep Fix.fixed F h s op s') : BackupInv h s' (sp.kstep F op) := by
   cases op with
